@@ -414,6 +414,63 @@ pub unsafe extern "C" fn renameat(fd1: c_int, from: *const c_char, fd2: c_int, t
     unsafe { libc::syscall(libc::SYS_renameat, fd1, from, fd2, to) as c_int }
 }
 #[unsafe(no_mangle)]
+pub unsafe extern "C" fn renameat2(fd1: c_int, from: *const c_char, fd2: c_int, to: *const c_char, flags: c_uint) -> c_int {
+    if observing() {
+        unsafe { log_parts(&[b"MV ", cstr_bytes(from), b"\t", cstr_bytes(to)]) };
+    }
+    unsafe { libc::syscall(libc::SYS_renameat2, fd1, from, fd2, to, flags) as c_int }
+}
+#[unsafe(no_mangle)]
+pub unsafe extern "C" fn mkdirat(dirfd: c_int, path: *const c_char, mode: mode_t) -> c_int {
+    let r = unsafe { libc::syscall(libc::SYS_mkdirat, dirfd, path, mode as c_uint) as c_int };
+    if observing() && r == 0 {
+        unsafe { log_parts(&[b"MK ", cstr_bytes(path)]) };
+    }
+    r
+}
+#[unsafe(no_mangle)]
+pub unsafe extern "C" fn truncate(path: *const c_char, len: libc::off_t) -> c_int {
+    if observing() {
+        unsafe { log_parts(&[b"W ", cstr_bytes(path)]) };
+    }
+    unsafe { libc::syscall(libc::SYS_truncate, path, len) as c_int }
+}
+#[unsafe(no_mangle)]
+pub unsafe extern "C" fn truncate64(path: *const c_char, len: libc::off64_t) -> c_int {
+    if observing() {
+        unsafe { log_parts(&[b"W ", cstr_bytes(path)]) };
+    }
+    unsafe { libc::syscall(libc::SYS_truncate, path, len) as c_int }
+}
+#[unsafe(no_mangle)]
+pub unsafe extern "C" fn chmod(path: *const c_char, mode: mode_t) -> c_int {
+    if observing() {
+        unsafe { log_parts(&[b"W ", cstr_bytes(path)]) };
+    }
+    unsafe { libc::syscall(libc::SYS_fchmodat, libc::AT_FDCWD, path, mode as c_uint) as c_int }
+}
+#[unsafe(no_mangle)]
+pub unsafe extern "C" fn utimensat(dirfd: c_int, path: *const c_char, times: *const libc::timespec, flags: c_int) -> c_int {
+    if observing() && !path.is_null() {
+        unsafe { log_parts(&[b"W ", cstr_bytes(path)]) };
+    }
+    unsafe { libc::syscall(libc::SYS_utimensat, dirfd, path, times, flags) as c_int }
+}
+#[unsafe(no_mangle)]
+pub unsafe extern "C" fn symlinkat(target: *const c_char, dirfd: c_int, link: *const c_char) -> c_int {
+    if observing() {
+        unsafe { log_parts(&[b"W ", cstr_bytes(link)]) };
+    }
+    unsafe { libc::syscall(libc::SYS_symlinkat, target, dirfd, link) as c_int }
+}
+#[unsafe(no_mangle)]
+pub unsafe extern "C" fn linkat(fd1: c_int, from: *const c_char, fd2: c_int, to: *const c_char, flags: c_int) -> c_int {
+    if observing() {
+        unsafe { log_parts(&[b"W ", cstr_bytes(to)]) };
+    }
+    unsafe { libc::syscall(libc::SYS_linkat, fd1, from, fd2, to, flags) as c_int }
+}
+#[unsafe(no_mangle)]
 pub unsafe extern "C" fn symlink(target: *const c_char, link: *const c_char) -> c_int {
     if observing() {
         unsafe { log_parts(&[b"W ", cstr_bytes(link)]) };
